@@ -400,6 +400,10 @@ func (gen *Generator) GenerateShortCircuit(or bool, args []Sexp) error {
 
 	for i := size - 2; i >= 0; i-- {
 		subgen = gen.NewSubGenerator()
+		// a break, continue or tail call inside this arm must
+		// unwind the scopes that are open around the and/or.
+		subgen.scopes = gen.scopes
+		subgen.funcname = gen.funcname
 		if err := subgen.Generate(args[i]); err != nil {
 			return err
 		}
@@ -431,6 +435,9 @@ func (gen *Generator) GenerateCond(args []Sexp) error {
 	// we generate the cond bottom up, so i counts down.
 	for i := len(args)/2 - 1; i >= 0; i-- {
 		subgen.Reset()
+		// the predicate sees the same open scopes as the cond itself
+		subgen.scopes = gen.scopes
+		subgen.funcname = gen.funcname
 		err := subgen.Generate(args[2*i])
 		if err != nil {
 			return err
